@@ -15,6 +15,16 @@ Rec == ndJsonDeserialize(IOEnv.TRACE)
 VARIABLES l, nbad
 vars == <<l, nbad>>
 
+\* C20: the same call recorded from a dev build (debug assertions, overflow checks) and from a
+\* release build: both must return (a panic or a hang is not a behaviour of the specification)
+\* and must return the same value
+Returned(o) == ~("panic" \in DOMAIN o \/ "hang" \in DOMAIN o)
+TotalFails(e) ==
+    (IF "only" \in DOMAIN e.out THEN {"recorded_in_both_profiles"} ELSE
+       (IF Returned(e.out.dev) THEN {} ELSE {"dev_build_returns"})
+       \cup (IF Returned(e.out.rel) THEN {} ELSE {"release_build_returns"})
+       \cup (IF Returned(e.out.dev) /\ Returned(e.out.rel) /\ e.out.dev # e.out.rel THEN {"same_result_in_both_profiles"} ELSE {}))
+
 Fails(e) ==
     CASE e.op = "sbf" -> SupplyFails(e)
       [] e.op = "sbf_equiv" -> SbfEquivFails(e)
@@ -31,6 +41,7 @@ Fails(e) ==
       [] e.op = "maxrt" -> MaxRtFails(e)
       [] e.op = "rta" -> RtaFails(e)
       [] e.op \in {"ros2_es", "ros2_timer", "ros2_pp", "ros2_chain", "ros2_rr", "ros2_bw"} -> Ros2Fails(e)
+      [] e.op = "total" -> TotalFails(e)
       [] e.op = "agree" -> AgreeFails(e)
       [] e.op = "agree_max" -> AgreeMaxFails(e)
       [] e.op = "cost_trace" -> CostTraceFails(e)
